@@ -26,7 +26,7 @@ func zzExact(tag string, kind int, exactIEEEMinMax bool) (*DDSketchWithExactSumm
 // ---------- C16 ----------
 
 func zzC16Sketch(kind int, exact bool) {
-	zzvBound("sketch reweight", "stores of one kind per harness (dense L=3, sparse M=2, paginated B=2, paginated pages+buffer, collapsing N=2) in arbitrary valid states on both sides, symbolic zero weight; factors {1/4,1/2,1,2,3} and every dyadic factor <= 0 for the refusal")
+	zzvBound("sketch reweight", "stores of one kind per harness (dense L=3, sparse M=2, paginated B=2, paginated pages+buffer, collapsing N=2) in arbitrary valid states on both sides, symbolic zero weight; factors {1/4,1/2,1,2,3}; refused factors {0,-1/4,-1,-3}")
 	var s *DDSketch
 	var e *DDSketchWithExactSummaryStatistics
 	if exact {
@@ -43,7 +43,9 @@ func zzC16Sketch(kind int, exact bool) {
 	p := zzProbe()
 	zzvCover("pre-state")
 	if zzvChoose("refuse", 2) == 1 {
-		w := zzvDyadic("w", 4, -(1 << 20), 0)
+		// non-positive factors from a grid (a symbolic factor could not be multiplied with symbolic weights
+		// should the implementation touch anything before refusing)
+		w := []float64{0, -0.25, -1, -3}[zzvChoose("w", 4)]
 		var err error
 		if exact {
 			err = e.Reweight(w)
